@@ -90,20 +90,31 @@ Section SortDoc.
     split; [apply insertion_sort_perm|apply insertion_sort_sorted].
   Qed.
 
-  (* unique / unique_by: one value per run of equal keys of the sorted items, the first of the run *)
-  Fixpoint runs_first (items : list item) : list jv :=
-    match items with
-    | [] => []
-    | (v, k) :: r => v :: runs_first ((fix skip (r : list item) : list item :=
-                                         match r with
-                                         | (v', k') :: r' => if compare pf k k' =? 0 then skip r' else r
-                                         | [] => []
-                                         end) r)
-    end.
+  (* unique / unique_by: a selection of the sorted values: the first value, then each value whose key
+     differs (Compare <> 0) from the key of the last value kept *)
+  Inductive kept : bool -> jv -> list item -> list jv -> Prop :=
+  | kept_nil f last : kept f last [] []
+  | kept_take f last v k r out : f || negb (compare pf last k =? 0) = true -> kept false k r out -> kept f last ((v, k) :: r) (v :: out)
+  | kept_skip last v k r out : compare pf last k =? 0 = true -> kept false last r out -> kept false last ((v, k) :: r) out.
+  Lemma unique_loop_kept items : forall f last, kept f last items (unique_loop pf items f last).
+  Proof.
+    induction items as [|[v k] r IH]; intros f last; simpl; [constructor|].
+    destruct (f || negb (compare pf last k =? 0)) eqn:E.
+    - constructor; auto.
+    - apply orb_false_iff in E as [-> E]. apply negb_false_iff in E. constructor; auto.
+  Qed.
+  Theorem f_unique_by_doc by_ vs xs out : f_unique_by pf by_ (JArr vs) (JArr xs) = Val out ->
+    exists items sel, sort_items pf by_ (JArr vs) (JArr xs) = Val items /\ out = JArr sel /\ kept true JNull items sel.
+  Proof.
+    unfold f_unique_by. destruct (sort_items pf by_ (JArr vs) (JArr xs)) as [items| |] eqn:E; try discriminate.
+    cbn [bind]. intros H. inversion H; subst. exists items, (unique_loop pf items true JNull).
+    repeat split; auto. apply unique_loop_kept.
+  Qed.
+
   (* group_by: the sorted values cut where the key changes *)
   Lemma group_loop_concat items : forall first last rg out,
     group_loop pf items first last rg = Val out ->
-    concat (map (@rev jv) (rev out)) = concat (map (@rev jv) (rev rg)) ++ map fst items.
+    List.concat (map (@rev jv) (rev out)) = List.concat (map (@rev jv) (rev rg)) ++ map fst items.
   Proof.
     induction items as [|[v k] items IH]; intros first last rg out H; simpl in *.
     - inversion H; subst. rewrite app_nil_r. reflexivity.
@@ -114,7 +125,7 @@ Section SortDoc.
   Qed.
   Theorem f_group_by_doc vs xs out : f_group_by pf (JArr vs) (JArr xs) = Val out ->
     exists items groups, sort_items pf true (JArr vs) (JArr xs) = Val items /\ out = JArr (map JArr groups)
-      /\ concat groups = map fst items /\ Forall (fun g => g <> []) groups.
+      /\ List.concat groups = map fst items /\ Forall (fun g => g <> []) groups.
   Proof.
     unfold f_group_by. destruct (sort_items pf true (JArr vs) (JArr xs)) as [items| |] eqn:E; try discriminate.
     cbn [bind]. destruct (group_loop pf items true JNull []) as [g| |] eqn:G; try discriminate. cbn [bind].
